@@ -46,24 +46,11 @@ func (r *refRegistry) add(reg kit.Reg) (bool, bool) {
 		return false, false
 	}
 	var nd []refDesc
-	both := false
 	if reg.Form == kit.FormVoid {
 		nd = []refDesc{{Reg: reg.ID, Life: reg.Life, Void: true}}
 	}
 	seen := map[kit.Ident]bool{}
 	for _, p := range reg.Provides() {
-		if p.Ident.Key != "" && p.Ident.Group != "" {
-			// a result-object field tagged with both a name and a group: it occupies the keyed identity
-			// (type, name); what else it means is not defined, so after an accepted one only no-panic is checked
-			kid := kit.Ident{T: p.Ident.T, Key: p.Ident.Key}
-			if r.has(kid) || seen[kid] {
-				return false, true
-			}
-			seen[kid] = true
-			both = true
-			nd = append(nd, refDesc{Reg: reg.ID, Out: p.Out, Ident: kid, Life: reg.Life})
-			continue
-		}
 		if p.Ident.Group == "" {
 			if r.has(p.Ident) || seen[p.Ident] {
 				return false, true
@@ -71,9 +58,6 @@ func (r *refRegistry) add(reg kit.Reg) (bool, bool) {
 			seen[p.Ident] = true
 		}
 		nd = append(nd, refDesc{Reg: reg.ID, Out: p.Out, Ident: p.Ident, Life: reg.Life})
-	}
-	if both {
-		r.tainted = "accepted a result-object field tagged with both name and group"
 	}
 	r.descs = append(r.descs, nd...)
 	cp := reg
@@ -176,6 +160,66 @@ func allPoolIdents() []kit.Ident {
 		ids = append(ids, kit.Ident{T: ty}, kit.Ident{T: ty, Key: "a"}, kit.Ident{T: ty, Group: "g"})
 	}
 	return ids
+}
+
+// checkProviderScopes resolves every pool identity in two fresh scopes (in opposite orders) and
+// checks, against the snapshot model, that identities provided by the same output of one
+// scoped/singleton registration are one instance per scope and that each constructor ran at most
+// once per scope: the lifetime rules of a built provider must not depend on later collection edits.
+func checkProviderScopes(s *provSnap, when string) *Failure {
+	ids := allPoolIdents()
+	for pass := 0; pass < 2; pass++ {
+		rec, o := s.R.CreateScope(0, 1)
+		if o.Err != nil || o.Panic != nil || !rec.Created {
+			return fail("C17", "snapshot", "scope/"+when, "%s: CreateScope on the kept provider failed: %v %v", when, firstLine(o.Err), o.Panic)
+		}
+		before := map[int]int{}
+		for id, n := range s.R.W.Count {
+			before[id] = n
+		}
+		byOwner := map[kit.Owner]*kit.Entry{}
+		order := ids
+		if pass == 1 {
+			order = make([]kit.Ident, len(ids))
+			for i, id := range ids {
+				order[len(ids)-1-i] = id
+			}
+		}
+		for _, id := range order {
+			ob := s.R.Resolve(rec.Tag, id)
+			if ob.Err != nil || ob.Panic != nil {
+				continue // resolvability is judged by checkProvider
+			}
+			var owners []kit.Owner
+			if id.Group != "" {
+				owners = s.M.Members(id.T, id.Group)
+			} else if ow, ok := s.M.Owner(id); ok {
+				owners = []kit.Owner{ow}
+			}
+			if len(owners) != len(ob.Entries) {
+				continue
+			}
+			for i, e := range ob.Entries {
+				reg := s.M.Regs[owners[i].Reg]
+				if e == nil || reg == nil || reg.Life == kit.Transient || reg.Form == kit.FormInstance {
+					continue
+				}
+				if prev, seen := byOwner[owners[i]]; seen && prev != e {
+					return fail("C17", "snapshot", "lifetime/"+when+"/"+formFeature(reg), "%s: in one scope of the kept provider, output %d of %s r%d resolved to two different instances (%v via another identity, %v via %s)", when, owners[i].Out, lifeName(reg.Life), owners[i].Reg, prev, e, id)
+				}
+				byOwner[owners[i]] = e
+			}
+		}
+		for id, reg := range s.M.Regs {
+			if reg.Life == kit.Scoped && reg.Form != kit.FormInstance && reg.Form != kit.FormVoid {
+				if d := s.R.W.Count[id] - before[id]; d > 1 {
+					return fail("C17", "snapshot", "ctor-count/"+when+"/"+formFeature(reg), "%s: scoped r%d (%s) was constructed %d times in one scope of the kept provider", when, id, reg, d)
+				}
+			}
+		}
+		s.R.CloseScope(rec.Tag)
+	}
+	return nil
 }
 
 // checkProvider resolves every pool identity on the provider and compares
@@ -382,8 +426,13 @@ func TestC17Registry(t *testing.T) {
 			}
 		}
 		for _, s := range kept {
-			if f == nil && ref.tainted == "" {
+			// kept providers were built from an untainted registry: whatever happened to the collection
+			// afterwards (also edits whose meaning for the collection is left open) must not affect them
+			if f == nil {
 				f = checkProvider(s, "after-later-edits")
+			}
+			if f == nil {
+				f = checkProviderScopes(s, "after-later-edits")
 			}
 			s.R.CloseProvider()
 		}
